@@ -435,9 +435,16 @@ def save_score_midi(
                     # add ts change
                     # if the number of beats is not integer, halve the beat
                     # (a time signature with 0 beats is not valid)
+                    # (a multiple of the halved beat may likewise come out
+                    # slightly below or above it in floating point)
                     m_beats, m_beat_type = m_duration_beat, int(m_ts[1])
-                    while m_beats != int(m_beats) and m_beat_type < 128:
+                    while (
+                        not np.isclose(m_beats, np.round(m_beats))
+                        and m_beat_type < 128
+                    ):
                         m_beats, m_beat_type = 2 * m_beats, 2 * m_beat_type
+                    if np.isclose(m_beats, np.round(m_beats)):
+                        m_beats = np.round(m_beats)
                     meta_events[part][to_ppq(measure.start.t)].append(
                         MetaMessage(
                             "time_signature",
